@@ -42,7 +42,7 @@ def alphabet():
         ["{NUMBER:a}", "{GROUP:a:b}", "{GROUP:a}", "{TEXT:a}", "{FOO:a}", "{TEXT:a:b}", "{", "}", "{NUMBER}", "{:}"],
         ["to", "in", "as", "into", "of", "on", "off", "at", "is", "what", "unix", "date", "hex", "octal", "binary", "decimal", "am", "pm", "now", "today", "tomorrow", "yesterday"],
         ["day", "days", "week", "month", "months", "year", "second", "minute", "hours", "gün", "hafta", "ay", "yıl", "saniye", "dakika", "saat", "bugün", "yarın", "dün", "arası"],
-        words[::7], words[3::7], zones, ["GMT+5:30", "GMT-12", "GMT+19:59", "GMT", "GMT+", "gmt+1", "GMT+1:60"],
+        words[::7], words[3::7], zones, ["GMT+5:30", "GMT-12", "GMT+19:59", "GMT", "GMT+", "gmt+1", "GMT+1:60", "GMT+24", "GMT-25:30", "GMT29", "GMT+20", "GMT-23:59", "GMT+99"],
         ["km", "m", "in", "ft", "kg", "oz", "mb", "byte", "bit", "yb", "mile", "st", "kilobytes", "meter"],
         ["january", "feb", "may", "mar", "ocak", "şubat", "subat", "aralık", "December", "MAYIS"],
         ["zorp", "foo bar", "x", "a", "zorp blip quux"],
@@ -51,6 +51,10 @@ def alphabet():
         ["ğü", "İ", "ß", "日本", "😀", "é", "‏", "ﬁ", "ǅ", "\t", "\u0000", "٣", "Ⅳ", "½", " ", "﻿"],
         ["times", "multiply", "divide", "add", "sum", "minus", "kere", "çarpı", "ekle", "eksi", "euro"],
         ["10000000000000000000 years", "99999999999 months", "1000000000 weeks", "9223372036854775807 days", "99999999999999 hours", "9223372036854775807 seconds"],
+        # whole phrases on the boundaries the other properties' domains stop at (a day or more added to a time, month ends, zero divisors ...)
+        ["11:30 + 25 hours", "10:00 + 1 day", "22:15 - 3 days 2 hours", "0:00 - 1 second", "23:59:59 + 86400 seconds", "31/1/2021 + 1 month", "29/2/2020 - 1 year", "1/1/1 - 1 day",
+         "31/12/9999 + 1 day", "1/1/2020 + 9999999 years", "10 usd / 0 usd", "5 km / 0 m", "0% of 0", "8 is 0% of what", "0 is what % of 0", "1 yb to bit", "1 bit to yb",
+         "11:30 to 11:30", "today to today", "1k km to mm", "0x7FFFFFFFFFFFFFFF + 1", "9007199254740993 to hex", "-5 to hex", "1,5 to binary"],
         ["99999999999999999 to date", "-99999999999999999 to date", "1 oct 2022 at 10:00", "1/1/2020 at 24", "1/1/2020 at -1", "1/1/2020 at 1000000000", "today at 12", "1664582400 to EST"],
     ]
     return A
@@ -223,9 +227,13 @@ def run(rep):
         if len(seq) == 1:
             for s in A[seq[0] - 1]:
                 lines.append(s)
+        elif len(seq) == 2:
+            # every pair of strings when there are few, a seeded sample of 30 pairs otherwise
+            pairs = [(a, b) for a in A[seq[0] - 1] for b in A[seq[1] - 1]]
+            for a, b in (pairs if len(pairs) <= 30 else rng.sample(pairs, 30)):
+                lines.append(a + rng.choice(["", " ", " ", "  "]) + b)
         else:
-            for _ in range(5 if len(seq) == 2 else 1):
-                lines.append(rng.choice(["", " ", " ", "  "]).join(rng.choice(A[c - 1]) for c in seq))
+            lines.append(rng.choice(["", " ", " ", "  "]).join(rng.choice(A[c - 1]) for c in seq))
     lines = [l for l in lines if len(l) <= 256]
     cs = cfgs()
     texts = []
